@@ -3,6 +3,7 @@ package proc
 
 import (
 	"bufio"
+	"bytes"
 	"encoding/json"
 	"fmt"
 	"io"
@@ -10,6 +11,7 @@ import (
 	"os/exec"
 	"path/filepath"
 	"regexp"
+	"strconv"
 	"strings"
 	"sync"
 	"sync/atomic"
@@ -25,8 +27,10 @@ type Options struct {
 	Workers    int           // number of worker processes
 	Env        []string      // extra environment
 	NoMemLimit bool          // race-detector binaries cannot run under RLIMIT_AS
-	Watchdog   time.Duration // per-job wall-clock watchdog (generous; firing is never a verdict by itself)
-	Isolated   time.Duration // budget of the isolated re-run after the watchdog fired
+	Watchdog   time.Duration // per-job budget of CPU time of the worker process (not wall-clock time: a loaded machine must not change a verdict)
+	Isolated   time.Duration // CPU budget of the isolated re-run after the watchdog fired
+	IdleWall   time.Duration // a job whose process makes no CPU progress and has no runnable thread for this long is blocked
+	HardCap    time.Duration // wall-clock cap per job; reaching it is inconclusive, never a verdict
 	MaxFirings int           // after this many watchdog firings the remaining jobs are skipped (the run is then inconclusive)
 }
 
@@ -57,6 +61,12 @@ func New(opt Options) *Pool {
 	}
 	if opt.MaxFirings == 0 {
 		opt.MaxFirings = 6
+	}
+	if opt.IdleWall == 0 {
+		opt.IdleWall = 20 * time.Second
+	}
+	if opt.HardCap == 0 {
+		opt.HardCap = 30 * time.Minute
 	}
 	return &Pool{opt: opt}
 }
@@ -121,11 +131,95 @@ type reply struct {
 	err error
 }
 
-// exec1 sends one job and waits for the result or the timeout.
-func (w *worker) exec1(job *proto.Job, timeout time.Duration) (*proto.Result, error, bool) {
+// procCPU returns the CPU time (user + system, all threads) the process has used so far, and whether any of its threads is
+// runnable or in uninterruptible sleep right now. deep: include the descendants of the process (costly: scans /proc).
+func procCPU(pid int, deep bool) (cpu time.Duration, busy bool, ok bool) {
+	one := func(pid int) (time.Duration, bool, bool) {
+		b, err := os.ReadFile(fmt.Sprintf("/proc/%d/stat", pid))
+		if err != nil {
+			return 0, false, false
+		}
+		i := bytes.LastIndexByte(b, ')')
+		if i < 0 {
+			return 0, false, false
+		}
+		f := strings.Fields(string(b[i+1:]))
+		if len(f) < 13 {
+			return 0, false, false
+		}
+		ut, e1 := strconv.ParseInt(f[11], 10, 64)
+		st, e2 := strconv.ParseInt(f[12], 10, 64)
+		if e1 != nil || e2 != nil {
+			return 0, false, false
+		}
+		c := time.Duration(ut+st) * (time.Second / 100) // USER_HZ is 100 on Linux
+		bz := false
+		tasks, _ := filepath.Glob(fmt.Sprintf("/proc/%d/task/*/stat", pid))
+		for _, t := range tasks {
+			tb, err := os.ReadFile(t)
+			if err != nil {
+				continue
+			}
+			if k := bytes.LastIndexByte(tb, ')'); k >= 0 && k+2 < len(tb) {
+				if ch := tb[k+2]; ch == 'R' || ch == 'D' {
+					bz = true
+				}
+			}
+		}
+		return c, bz, true
+	}
+	cpu, busy, ok = one(pid)
+	if !ok {
+		return
+	}
+	if !deep {
+		return cpu, busy, true
+	}
+	// descendants (a worker started through a wrapper such as strace): found by their parent pid
+	parent := map[int]int{}
+	stats, _ := filepath.Glob("/proc/[0-9]*/stat")
+	for _, f := range stats {
+		sb, err := os.ReadFile(f)
+		if err != nil {
+			continue
+		}
+		k := bytes.LastIndexByte(sb, ')')
+		if k < 0 {
+			continue
+		}
+		fs := strings.Fields(string(sb[k+1:]))
+		if len(fs) < 2 {
+			continue
+		}
+		id, e1 := strconv.Atoi(strings.TrimSuffix(strings.TrimPrefix(f, "/proc/"), "/stat"))
+		pp, e2 := strconv.Atoi(fs[1])
+		if e1 == nil && e2 == nil {
+			parent[id] = pp
+		}
+	}
+	for id := range parent {
+		for a, hops := parent[id], 0; a > 1 && hops < 16; a, hops = parent[a], hops+1 {
+			if a == pid {
+				if cc, bz, ok := one(id); ok {
+					cpu += cc
+					busy = busy || bz
+				}
+				break
+			}
+		}
+	}
+	return cpu, busy, true
+}
+
+// exec1 sends one job and waits for the result. The job is given up (third result true) when the worker process
+//   - has used more CPU time than budget since the job began (a loop, or work far beyond what any case needs), or
+//   - has made no CPU progress and had no runnable thread for p.opt.IdleWall of wall-clock time (blocked: deadlock, sleep), or
+//   - reaches the wall-clock cap (why = "wall-cap"; inconclusive by itself).
+// CPU time and thread states do not depend on how busy the machine is; wall-clock time alone never decides.
+func (w *worker) exec1(job *proto.Job, budget, idleWall, hardCap time.Duration) (res *proto.Result, err error, timedOut bool, why string) {
 	data, err := json.Marshal(job)
 	if err != nil {
-		return nil, err, false
+		return nil, err, false, ""
 	}
 	data = append(data, '\n')
 	ch := make(chan reply, 1)
@@ -146,22 +240,52 @@ func (w *worker) exec1(job *proto.Job, timeout time.Duration) (*proto.Result, er
 		}
 		ch <- reply{&r, nil}
 	}()
-	t := time.NewTimer(timeout)
-	defer t.Stop()
+	pid := w.cmd.Process.Pid
 	t0 := time.Now()
-	select {
-	case r := <-ch:
-		if d := time.Since(t0); slowLog && d > 5*time.Second {
-			fmt.Fprintf(os.Stderr, "SLOW job %s took %.1fs (%d bytes of job)\n", job.ID, d.Seconds(), len(data))
+	cpu0, _, _ := procCPU(pid, false)
+	lastCPU, lastProgress := cpu0, t0
+	tick := time.NewTicker(500 * time.Millisecond)
+	defer tick.Stop()
+	for {
+		select {
+		case r := <-ch:
+			if d := time.Since(t0); slowLog > 0 && d > slowLog {
+				c1, _, _ := procCPU(pid, false)
+				fmt.Fprintf(os.Stderr, "SLOW job %s took %.1fs wall, %.1fs cpu (%d bytes of job)\n", job.ID, d.Seconds(), (c1 - cpu0).Seconds(), len(data))
+			}
+			return r.res, r.err, false, ""
+		case now := <-tick.C:
+			cpu, busy, ok := procCPU(pid, false)
+			if !ok {
+				continue // the process is gone: the reader goroutine reports the broken pipe
+			}
+			if cpu-lastCPU >= 50*time.Millisecond || busy {
+				lastCPU, lastProgress = cpu, now
+			} else if now.Sub(lastProgress) >= idleWall/2 {
+				// looks idle: before giving up, look at the children too (worker behind a wrapper)
+				if _, b2, ok2 := procCPU(pid, true); ok2 && b2 {
+					lastProgress = now
+				}
+			}
+			switch {
+			case cpu-cpu0 >= budget:
+				return nil, nil, true, "cpu-budget"
+			case now.Sub(lastProgress) >= idleWall:
+				return nil, nil, true, "blocked"
+			case now.Sub(t0) >= hardCap:
+				return nil, nil, true, "wall-cap"
+			}
 		}
-		return r.res, r.err, false
-	case <-t.C:
-		return nil, nil, true
 	}
 }
 
-// slowLog (development aid, VERIF_SLOW=1): report jobs that take longer than 5 s on stderr.
-var slowLog = os.Getenv("VERIF_SLOW") == "1"
+// slowLog (development aid, VERIF_SLOW=<seconds>): report jobs that take longer than that on stderr.
+var slowLog = func() time.Duration {
+	if v, err := strconv.ParseFloat(os.Getenv("VERIF_SLOW"), 64); err == nil && v > 0 {
+		return time.Duration(v * float64(time.Second))
+	}
+	return 0
+}()
 
 var reFrame = regexp.MustCompile(`(?m)^(github\.com/jsightapi/[^\s(]+)\(`)
 
@@ -253,36 +377,45 @@ func (p *Pool) Run(jobs <-chan *proto.Job, handle func(*proto.Job, *proto.Result
 					}
 				}
 				atomic.AddInt64(&p.Stats.Jobs, 1)
-				res, err, timedOut := w.exec1(job, p.opt.Watchdog)
+				res, err, timedOut, why := w.exec1(job, p.opt.Watchdog, p.opt.IdleWall, p.opt.HardCap)
 				switch {
 				case timedOut:
 					atomic.AddInt64(&p.Stats.WatchdogFired, 1)
 					dump, _ := w.reap(syscall.SIGQUIT)
 					w = nil
-					blockedIn := blockedLibraryFrame(dump)
-					// isolated re-run with a generous budget
+					blockedIn := ""
+					if why == "blocked" {
+						blockedIn = blockedLibraryFrame(dump)
+					}
+					// isolated re-run in a fresh process with a larger CPU budget
 					iw, serr := p.start()
 					if serr != nil {
 						errCh <- serr
 						return
 					}
-					r2, err2, to2 := iw.exec1(job, p.opt.Isolated)
-					if to2 {
+					r2, err2, to2, why2 := iw.exec1(job, p.opt.Isolated, p.opt.IdleWall, p.opt.HardCap)
+					switch {
+					case to2 && why2 == "wall-cap":
+						// neither out of CPU budget nor blocked, just not finished within the cap: no verdict
+						iw.kill()
+						atomic.AddInt64(&p.Stats.Inconclusive, 1)
+						res = &proto.Result{ID: job.ID, WorkerErr: "the job reached the wall-clock cap without exhausting its CPU budget (machine too busy?)"}
+					case to2:
 						d2, _ := iw.reap(syscall.SIGQUIT)
-						res = &proto.Result{ID: job.ID, Fatal: &proto.FatalInfo{Kind: "hang", Stderr: truncS(d2, 3000)}}
+						res = &proto.Result{ID: job.ID, Fatal: &proto.FatalInfo{Kind: "hang", Stderr: "given up: " + why2 + "\n" + truncS(d2, 3000)}}
 						if m := reFrame.FindStringSubmatch(d2); m != nil {
 							res.Fatal.Func = strings.TrimPrefix(strings.TrimPrefix(m[1], "github.com/jsightapi/"), "jsight-api-core/")
 						}
-					} else if err2 != nil {
+					case err2 != nil:
 						st, werr := iw.reap(0)
 						atomic.AddInt64(&p.Stats.WorkerDeaths, 1)
 						res = &proto.Result{ID: job.ID, Fatal: classifyDeath(st, werr)}
-					} else if blockedIn != "" {
-						// Alone the job returns at once, inside the long-lived worker it sat blocked (not running) in the
-						// library for the whole watchdog period: the hang depends on what the process did before.
+					case blockedIn != "":
+						// Alone the job returns at once, inside the long-lived worker it sat blocked (no CPU progress, no runnable
+						// thread) in the library: the hang depends on what the process did before.
 						iw.kill()
 						res = &proto.Result{ID: job.ID, Fatal: &proto.FatalInfo{Kind: "blocked-after-earlier-calls", Func: blockedIn, Stderr: truncS(dump, 3000)}}
-					} else {
+					default:
 						atomic.AddInt64(&p.Stats.Inconclusive, 1)
 						res = r2
 						w = iw
